@@ -322,6 +322,7 @@ MAINLOOP:
 		newVal, parseErr := ws.Value(ctx, t)
 
 		configExists := !os.IsNotExist(parseErr)
+		verifPoint(ctx, "fw.read", "exists", configExists, "err", parseErr)
 		if !configExists {
 			// if the file was renamed or deleted/unlinked,
 			// remove its watch.
@@ -355,6 +356,7 @@ MAINLOOP:
 			}
 		}
 		ws.updateDirWatches(oldResolvedCfgDir, filepath.Dir(resolvedCfgPath))
+		verifPoint(ctx, "fw.rearmed", "watchingFile", watchingFile)
 
 		switch t := parseErr.(type) {
 		case nil:
